@@ -234,7 +234,7 @@ def run(c):
         c.cov["evaluations"] += 4
 
     # ---- 3. record random datagrams -> Trace_SnapIngress ------------------------------------------
-    n = 400000 if thorough else 30000
+    n = 1000000 if thorough else 50000
     ev = os.path.join(c.work, "trace.ndjson")
     summ = os.path.join(c.work, "trace.json")
     rc, so = c.sh([binp, "record", ev, summ], env={"VERIF_N": n}, timeout=3000)
@@ -271,6 +271,20 @@ def run(c):
         c.fail_tool("vacuous trace generator: only %d of %d recorded datagrams may be dispatched" % (may, n))
     if res["dispatched"] < n // 50 or res["replied"] < n // 50:
         c.drift("recorded run: %s" % res)
+    # binding self-check (S6): corrupted observations must be flagged by the trace specification
+    good = next((x for x in cells if x["decide"] == "Dispatch"), None)
+    spoof = next((x for x in cells if x["decide"] == "Reply:InvalidSourceAddress" and not x["may"]), None)
+    if good and spoof:
+        bad = os.path.join(c.work, "trace_corrupted.ndjson")
+        write_ndjson(bad, [{"ev": "meta"},
+                           {"ev": "dg", "i": 0, "case": spoof["case"], "len": 100, "outcome": "Dispatch", "replies": 0, "reply_ok": True, "code": 255},
+                           {"ev": "dg", "i": 1, "case": good["case"], "len": 100, "outcome": "Reply:InvalidSourceAddress", "replies": 1, "reply_ok": True, "code": 33},
+                           {"ev": "dg", "i": 2, "case": spoof["case"], "len": 100, "outcome": "Reply:InvalidSourceAddress", "replies": 1, "reply_ok": False, "code": 33}])
+        rb = c.tlc(SD, "Trace_SnapIngress", mode="trace", env={"TRACE": bad}, timeout=900)
+        pk = sorted((p_["i"], p_["kind"]) for p_ in c.printed_json(rb, "PV"))
+        dk = sorted({d_["i"] for d_ in c.printed_json(rb, "DRIFT")})
+        if pk != [(0, "dispatched-forbidden"), (2, "bad-reply")] or 1 not in dk:
+            c.fail_tool("oracle self-check failed: Trace_SnapIngress flagged PV=%s DRIFT=%s on a corrupted trace" % (pk, dk))
     c.cov["traces_validated_against_impl"] = res["n"]
     c.cov["evaluations"] += res["n"]
     c.cov["trace_stats"] = dict(res, may_dispatch=may, drift=len(drifts))
